@@ -191,6 +191,7 @@ def classes():
         def __init__(self, in_space, out_space, body):
             super().__init__(mk_space(in_space), mk_space(out_space))
             self.in_l, self.out_l, self.body = in_space, out_space, body
+            self.unused_weight = torch.nn.Parameter(torch.zeros(1))   # so that an optimizer can be built for a fit
             self.seen = []            # what the model was evaluated on (space, rows), one record per call
 
         def forward(self, points):
@@ -248,6 +249,31 @@ def classes():
 
     _CLS.update(PolyModel=PolyModel, ListSampler=ListSampler, PolyTrunk=PolyTrunk, LinBranch=LinBranch, tp=tp, torch=torch)
     return _CLS
+
+
+def training_start(train, val=(), fit=False):
+    """what happens to conditions when a training is started: a Solver holding them runs its start-up hook
+    (`Solver.on_train_start` → every condition's `_move_static_data(device)`), optionally followed by a real
+    one-step `trainer.fit` (learning rate 0: nothing is learned; train conditions are evaluated once in the
+    training step, val conditions once in the validation pass)"""
+    C = classes()
+    tp, torch = C["tp"], C["torch"]
+    import logging
+    import pytorch_lightning as pl
+    logging.getLogger("pytorch_lightning").setLevel(logging.ERROR)
+    logging.getLogger("lightning.pytorch").setLevel(logging.ERROR)
+    solver = tp.solver.Solver(list(train), list(val), optimizer_setting=tp.solver.OptimizerSetting(torch.optim.SGD, lr=0.0))
+    def mk_trainer():
+        return pl.Trainer(accelerator="cpu", max_steps=1, logger=False, enable_checkpointing=False, enable_progress_bar=False,
+                          enable_model_summary=False, num_sanity_val_steps=0)
+    if fit:
+        mk_trainer().fit(solver)
+    else:
+        # the hook only needs a trainer to be attached (device, global_step = 0): one idle trainer serves all
+        if "idle_trainer" not in C:
+            C["idle_trainer"] = mk_trainer()
+        solver.trainer = C["idle_trainer"]
+        solver.on_train_start()
 
 
 def mk_space(space):
